@@ -46,6 +46,12 @@ def marks_to_violations(ctx, r, lines, what):
 def run(ctx):
     sd = ctx.stage()
     q = ctx.quick
+    import time
+    t = [time.time()]
+
+    def _stage(name):
+        ctx.notes.append("stage %s: %.1fs" % (name, time.time() - t[0]))
+        t[0] = time.time()
     ctx.assume("valid token name / ticker / call value (the identifier generation is reached); one ESDT contract on a real "
                "vmContext whose committed storage is a Go map updated from every successful VMOutput",
                "the hasher is an injected dependency of the contract: R2 scripts its digest so that the first candidate "
@@ -55,7 +61,11 @@ def run(ctx):
                "trusted: TLC, mock.BlockChainHookStub, the projection in harness/cmd/vh-tokenid")
     # ---- R1a: intended design (candidate wraps around): every clause holds; retries exhaustion is reachable
     write(sd, "r1a.cfg", defects="NoneOn", rest="VIEW cvars\n" + INV, maxissues=3 if q else 5)
-    ctx.tlc(sd, "MC_TokenId", "r1a.cfg", timeout=900, coverage=not q)
+    r0 = ctx.tlc(sd, "MC_TokenId", "r1a.cfg", timeout=900, coverage=not q)
+    if not q:
+        if r0.coverage_zero:
+            ctx.broken.append("vacuity guard: actions never taken in R1a: %s" % sorted(set(r0.coverage_zero)))
+        ctx.cov(coverage_actions_never_taken=sorted(set(r0.coverage_zero)))
     write(sd, "r1a2.cfg", defects="NoneOn", w=2, starts="EdgeStarts2", tickers='"AAA", "BBB"', maxissues=3 if q else 4,
           rest="VIEW cvars\n" + INV)
     ctx.tlc(sd, "MC_TokenId", "r1a2.cfg", timeout=900)
@@ -70,14 +80,16 @@ def run(ctx):
           rest="VIEW cvars\nINVARIANTS TypeOK Inv_C41_Unique Inv_C41_Stored")
     ctx.tlc(sd, "MC_TokenId", "r1c.cfg", timeout=900)
 
+    _stage("R1 model checking")
     exe = ctx.go_build("vh-tokenid")
+    _stage("build")
     # ---- R2: TLC behaviours at the real width (6 digits, 50 retries) replayed on the real contract.
     #      The model variant that matches the code (no wrap today, wrap after the proposed fix) is used for
     #      the functional comparison; the verdict is the property evaluated on what the contract stored.
     tot = dict(b=0, s=0, d=0, c=0, k=0, e=0)
     matched = None
     drift_lists = []
-    for variant in ("AllOn", "NoneOn"):
+    for variant in ("NoneOn", "AllOn"):   # the wrapping variant is the code since repo commit 06aee11
         n = dict(b=0, s=0, d=0, c=0, k=0, e=0)
         drifts0 = list(ctx.drifts)
         # a: every transition for first candidates around the carry and inside the range, all three functions
@@ -115,12 +127,13 @@ def run(ctx):
             collisions_replayed=tot["c"], carries_replayed=tot["k"], retries_exhausted_replayed=tot["e"],
             code_matches_model_variant={"AllOn": "NoWrapOnCarry (candidate incremented without wrap)",
                                         "NoneOn": "candidate wraps modulo 16^6", None: "neither (see drift)"}[matched])
+    _stage("R2 gen+replay")
     # ---- R3: production hashers with searched seeds + long scripted histories, validated by TLC
     tr = os.path.join(sd, "trace.ndjson")
     r3 = ctx.vh(exe, ["record", ctx.seed, 1 if q else 6, tr], timeout=1500)
     lines = open(tr).read().splitlines() if os.path.exists(tr) else []
     how = None
-    for cfg in ("Trace_TokenId_AllOn.cfg", "Trace_TokenId_NoneOn.cfg", "Obs_TokenId.cfg"):
+    for cfg in ("Trace_TokenId_NoneOn.cfg", "Trace_TokenId_AllOn.cfg", "Obs_TokenId.cfg"):
         rr = ctx.tlc(sd, "Trace_TokenId", cfg, workers=1, timeout=600, count=False, allow=("postcondition",))
         if rr.ok:
             how = cfg
@@ -128,6 +141,7 @@ def run(ctx):
             break
         if rr.error != "postcondition":
             break
+    _stage("R3 record+validate")
     if how:
         ctx.cov(traces_validated_against_impl=int(r3.stats.get("traces", 0)), evaluations=len(lines),
                 trace_validation=how, hashes_searched=int(r3.stats.get("hashes_searched", 0)))
